@@ -25,7 +25,9 @@ REQUIRED_THEOREMS = ["Gv.Props.C14." + n for n in [
     "maxCharSite_order_independent", "maxCharSite_is_argmax",
     "countProfile_panic_iff", "countProfile_eq_spec", "profileCount_eq_spec", "profileCountsAt_error_iff",
     # the counter loops with a count profile (three slices: unique / new / both) = the naive recounts, all inputs
-    "numGapsUniqueProf_eq_spec", "numMutationsUniqueProf_eq_spec", "numGapsUniqueProf_first_eq_nil"]] + [
+    "numGapsUniqueProf_eq_spec", "numMutationsUniqueProf_eq_spec", "numGapsUniqueProf_first_eq_nil",
+    # Frameshifts / Stops (Model/FrameStats.lean): panic / error conditions, shape, soundness of the coordinates
+    "frameshifts_panic_iff", "frameshifts_shape", "frameshiftsRow_bounds", "stops_err_iff", "stops_panic_iff"]] + [
     # Pssm over the reals (Model/Pssm.lean, generic in the numeric type; Mathlib-importing module)
     "Gv.Props.C14Pssm." + n for n in [
     "pssm_no_panic", "pssm_empty_is_error", "pssm_err_iff", "pssm_err_iff_all", "pssm_shape", "pssm_counts", "pssm_freq", "pssm_freq_column_sum",
@@ -53,8 +55,19 @@ LEVEL_NOTE = ("Trusted: Lean kernel; harness/oracle/driver. Float-valued statist
 TECHNIQUE = "Lean 4 proof (order-independence for all permutations, list induction) + differential correspondence with repeated calls"
 RULE = ("alignments of 1..6 rows x 1..6 columns over small alphabets with ties for the most frequent character, all-gap and all-N "
         "columns, mixed case, specials; all site indices in [-1, L]; both ignore options; every map-ordered call repeated 200 "
-        "times; non-trivial = a column with a tie or a boundary index")
-PARTIAL = ["Entropy: the occurrence counts, the summation order and the error/NaN cases are proved (entropy_eq_spec); the float sum itself "
+        "times; non-trivial = a column with a tie or a boundary index; Frameshifts / Stops: reference / row pairs (and further rows) with "
+        "gap runs of every length 0..7 in either row at the start, inside, adjacent and at the end, stop codons of the three genetic "
+        "codes in and out of frame, lower case, U, IUPAC codes, unknown codes, no / one row")
+PARTIAL = ["Frameshifts / Stops (the statistics goalign phasent logs; Model/FrameStats.lean mirrors the two loops, Spec/FrameStats.lean "
+           "states the documented meaning with prefix counts: longest dephased part between two in-phase points, first stop codon "
+           "of the residues of the row / of its complete part): proved are the panic / error conditions, the shape and the soundness "
+           "of the reported interval (zero value or more than one residue, End within the residues of the row); model = documented "
+           "meaning is NOT proved: the oracle evaluates Spec/FrameStats on every answer of the implementation (strata frameshifts*, "
+           "stops*). Two deviations of Stops from its documentation are kept out of the generator (candidate defects, DESIGN 11.4): "
+           "the column loop stops at Length()-2, so a first stop codon whose last base lies in the last two columns is not reported "
+           "(`stops 1 r:GAAG,q:TAGT 1 0` answers -1), and `phase` / `started` are declared outside the loop over the rows, so with the "
+           "option and more than two rows a later row is read from its first residue instead of its complete part",
+           "Entropy: the occurrence counts, the summation order and the error/NaN cases are proved (entropy_eq_spec); the float sum itself "
            "(math.Log) is compared with tolerance 1e-12, rounding is not modelled; AvgAllelesPerSite: the two integer counters are "
            "proved, the float64 quotient is compared with tolerance",
            "Pssm: theorems are over the reals (Props/C14Pssm.lean); float rounding and the last place of math.Log are not modelled: "
